@@ -67,6 +67,14 @@ def make(rng, sid, hist):
     pos = "first" if not items else ("after_" + items[-1]["kind"])
     s = Scenario(sid, {"kind": kind, "line": line, "content": content, "delim": delim, "comment": comment, "pos": pos, "bad": bad})
     s.file(PATH, content)
+    if rng.random() < 0.3:
+        # an earlier read in the same process with other delimiter and comment characters (a login.defs style file, or one
+        # that fails itself) must not change what this read reports
+        pd, pc = rng.choice([(b" \t", b"#"), (b" \t=", b";"), (b":", b"#;"), (b"", b"#")])
+        s.file(b"/etc/prior.conf", rng.choice([b"UMASK 022\nMAIL_DIR\t/var/mail\n", b"a:b\n[x] y\n", b"one two three\n# c\n"]))
+        s.add("RF", 20, h(b"/etc/prior.conf"), h(pd), h(pc))
+        s.add("FREE", 20)
+        s.meta["prior"] = 2
     s.add("RF", 0, h(PATH), h(delim), h(comment))
     s.add("SLOT", 0)
     s.add("ERRLOC")
@@ -179,8 +187,10 @@ def oracle(s, lines):
         return None
     code = KINDS[m["kind"]]
     want = ["rf E%d null" % code, "slot null", "errloc %s %d" % (h(PATH), m["line"])]
-    if lines[:3] != want:
-        return "malformed line %r (%s) at line %d: got %r, expected %r" % (m["bad"], m["kind"], m["line"], lines[:3], want)
+    k = m.get("prior", 0)
+    if lines[k:k + 3] != want:
+        return "malformed line %r (%s) at line %d%s: got %r, expected %r" % (
+            m["bad"], m["kind"], m["line"], " after an earlier read with other delimiter characters" if k else "", lines[k:k + 3], want)
     return None
 
 
